@@ -42,6 +42,10 @@ def check(case):
     from fairlearn.metrics import MetricFrame
 
     kw = M.build_metricframe_kwargs(case)
+    if case.get("twice"):
+        # the frame under test is the *second* one built from the very same argument objects: constructing a
+        # MetricFrame must not consume or modify what the caller passed in (dicts, arrays, Series)
+        MetricFrame(**kw)
     mf = MetricFrame(**kw)
 
     n = case["n"]
@@ -151,11 +155,16 @@ def check(case):
         tags.append("sf>=2")
     if M.column_collision(case):
         tags.append("name_collision")
+    if case.get("twice") and has_params:
+        tags.append("second_construction_same_objects")
     return tags
 
 
-def _strategy():
-    return M.mf_case()
+@st.composite
+def _strategy(draw):
+    c = draw(M.mf_case())
+    c["twice"] = draw(st.booleans())
+    return c
 
 
 def in_d12(sub_name, case):
